@@ -697,6 +697,161 @@ theorem table_defaults_validate :
     Gen.validates.length = Gen.sections.length := by
   refine ⟨by decide, by decide, by decide⟩
 
+
+/-! ## 2c. config.Manager: a whole file in, a whole file out (model `Mgr` in Model/C15.lean) -/
+namespace Mgr
+
+variable {σ V : Type}
+
+/-- every section of the registry round-trips what it saves (the per-section statement: kind theorems + sweeps) -/
+def RegRoundTrips (r : Reg σ V) : Prop :=
+  (∀ x, r.cluster.load (r.cluster.save x) = some x) ∧
+  ∀ g n sp, r.spec g n = some sp → ∀ x, sp.load (sp.save x) = some x
+
+/-- **manager_save_load_id**: for every Manager state reachable by an accepted load, `ToJSON` succeeds and a
+Manager in *any* prior state loading the saved file accepts it and holds the same cluster section and the same
+configuration for every registered component (and nothing for an unregistered one) -/
+theorem manager_save_load_id (r : Reg σ V) (hr : RegRoundTrips r) (prev : State σ V) (f : File V) (s : State σ V)
+    (hl : Loads r prev f s) :
+    ∃ fs, saved r s = some fs ∧
+      (∀ prev', Loads r prev' fs { s with raw := fs }) ∧
+      (∀ prev' s', Loads r prev' fs s' → s'.cluster = s.cluster ∧ ∀ g n, s'.comp g n = s.comp g n) := by
+  obtain ⟨_, hne, hcomp, _⟩ := hl
+  cases hc : s.cluster with
+  | none => exact absurd hc hne
+  | some c =>
+    have hsv : ∃ fs, saved r s = some fs := by simp [saved, hc]
+    obtain ⟨fs, hfs⟩ := hsv
+    refine ⟨fs, hfs, ?_, ?_⟩ <;> (simp only [saved, hc, Option.some.injEq] at hfs; subst hfs)
+    · intro prev'
+      refine ⟨⟨c, hr.1 c, by simp [hc]⟩, by simp [hc], ?_, rfl⟩
+      intro g n
+      have h1 := hcomp g n
+      cases hs : r.spec g n with
+      | none => simpa [hs] using h1
+      | some sp =>
+        simp only [hs] at h1 ⊢
+        have hx : ∃ x, s.comp g n = some x := by
+          cases he : f.entry g n with
+          | none => simp [he] at h1; exact ⟨_, h1⟩
+          | some e => cases e with
+            | null => simp [he] at h1
+            | obj j => simp [he] at h1; obtain ⟨x, _, hx⟩ := h1; exact ⟨x, hx⟩
+        obtain ⟨x, hx⟩ := hx
+        simp only [hx]
+        exact ⟨x, hr.2 g n sp hs x, rfl⟩
+    · intro prev' s' hl'
+      obtain ⟨hcl', _, hcomp', _⟩ := hl'
+      constructor
+      · simp only at hcl'
+        obtain ⟨c', h1, h2⟩ := hcl'
+        rw [hr.1 c] at h1; cases h1; rw [h2]
+      · intro g n
+        have h1 := hcomp g n
+        have h2 := hcomp' g n
+        cases hs : r.spec g n with
+        | none => simp [hs] at h1 h2; rw [h1, h2]
+        | some sp =>
+          simp only [hs] at h1 h2
+          have hx : ∃ x, s.comp g n = some x := by
+            cases he : f.entry g n with
+            | none => simp [he] at h1; exact ⟨_, h1⟩
+            | some e => cases e with
+              | null => simp [he] at h1
+              | obj j => simp [he] at h1; obtain ⟨x, _, hx⟩ := h1; exact ⟨x, hx⟩
+          obtain ⟨x, hx⟩ := hx
+          simp only [hx] at h2
+          obtain ⟨x', h3, h4⟩ := h2
+          rw [hr.2 g n sp hs x] at h3; cases h3; rw [h4, hx]
+
+/-- **unknown_sections_policy**: what `ToJSON` writes for every (group, name) after an accepted load —
+an *unregistered* name keeps exactly what the file had (an object, `null`, or nothing: unknown components and
+unknown groups are preserved, never interpreted); a *registered* component is always written, with its defaults
+when the file did not define it; a registered component given as `null` is refused at load time -/
+theorem unknown_sections_policy (r : Reg σ V) (prev : State σ V) (f : File V) (s : State σ V) (fs : File V)
+    (hl : Loads r prev f s) (hs : saved r s = some fs) (g n : String) :
+    (r.spec g n = none → fs.entry g n = f.entry g n) ∧
+    (∀ sp, r.spec g n = some sp → f.entry g n = none → fs.entry g n = some (.obj (sp.save sp.dflt))) ∧
+    (∀ sp, r.spec g n = some sp → f.entry g n ≠ some .null) := by
+  obtain ⟨_, hne, hcomp, hraw⟩ := hl
+  cases hc : s.cluster with
+  | none => exact absurd hc hne
+  | some c =>
+    simp only [saved, hc, Option.some.injEq] at hs
+    subst hs
+    have h1 := hcomp g n
+    refine ⟨?_, ?_, ?_⟩
+    · intro hn; simp [hn, hraw]
+    · intro sp hsp he
+      simp only [hsp, he] at h1
+      simp [hsp, h1]
+    · intro sp hsp he
+      simp [hsp, he] at h1
+
+/-- the masked form of one component: every top-level hidden key carries the mask, whatever was under it -/
+theorem mask_hides (hidden : List String) (maskV : V) (j : CompJ V) (k : String) (v : V)
+    (hm : (k, v) ∈ mask hidden maskV j) (hk : hidden.contains k = true) : v = maskV := by
+  simp only [mask, List.mem_map] at hm
+  obtain ⟨kv, _, he⟩ := hm
+  by_cases h : hidden.contains kv.1 = true
+  · simp only [h, if_true, Prod.mk.injEq] at he; exact he.2.symm
+  · simp only [h] at he
+    simp only [Bool.false_eq_true, if_false] at he
+    subst he
+    exact absurd hk h
+
+/-- … and nothing else is touched (no field disappears from the displayable form, keys stay in order) -/
+theorem mask_keeps_keys (hidden : List String) (maskV : V) (j : CompJ V) :
+    (mask hidden maskV j).map (·.1) = j.map (·.1) := by
+  simp only [mask, List.map_map]
+  apply List.map_congr_left
+  intro kv _
+  simp only [Function.comp]
+  split <;> rfl
+
+/-- **display_hides_all_hidden**: in the displayable form of the whole Manager — the cluster section and every
+component of every group — each hidden top-level key of each section carries the mask and nothing else; and
+nothing that is not a registered component is displayed at all (an unknown component of the file, whatever it
+contains, never reaches the displayable form) -/
+theorem display_hides_all_hidden (r : Reg σ V) (maskV : V) (s : State σ V) :
+    (∀ j, (display r maskV s).cluster = some j → ∀ k v, (k, v) ∈ j → r.cluster.hidden.contains k = true → v = maskV) ∧
+    (∀ g n j, (display r maskV s).entry g n = some (.obj j) →
+      ∃ sp, r.spec g n = some sp ∧ ∀ k v, (k, v) ∈ j → sp.hidden.contains k = true → v = maskV) ∧
+    (∀ g n, r.spec g n = none → (display r maskV s).entry g n = none) := by
+  refine ⟨?_, ?_, ?_⟩
+  · intro j hj k v hm hk
+    simp only [display, Option.map_eq_some_iff] at hj
+    obtain ⟨c, _, rfl⟩ := hj
+    exact mask_hides _ _ _ k v hm hk
+  · intro g n j hj
+    simp only [display] at hj
+    cases hs : r.spec g n with
+    | none => simp [hs] at hj
+    | some sp =>
+      cases hx : s.comp g n with
+      | none => simp [hs, hx] at hj
+      | some x =>
+        simp [hs, hx] at hj
+        subst hj
+        exact ⟨sp, rfl, fun k v hm hk => mask_hides _ _ _ k v hm hk⟩
+  · intro g n hn; simp [display, hn]
+
+/-- duplicate keys: the last occurrence is the one that counts -/
+theorem dup_last_wins (l : List (String × α)) (k : String) (v : α) : lookupLast (l ++ [(k, v)]) k = some v := by
+  simp [lookupLast]
+
+/-- the hypotheses are satisfiable: a one-component registry whose section round-trips -/
+example : ∃ r : Reg Nat Nat, RegRoundTrips r ∧ r.spec "consensus" "crdt" ≠ none :=
+  ⟨{ cluster := { load := fun j => j.head?.map (·.2), dflt := 0, save := fun x => [("k", x)], hidden := ["secret"] },
+     spec := fun g n => if g == "consensus" && n == "crdt" then
+       some { load := fun j => j.head?.map (·.2), dflt := 1, save := fun x => [("k", x)], hidden := [] } else none },
+   ⟨fun _ => rfl, fun g n sp h x => by
+      by_cases hc : (g == "consensus" && n == "crdt") = true
+      · simp [hc] at h; subst h; rfl
+      · simp [hc] at h⟩, by simp⟩
+
+end Mgr
+
 /-! ## 3. config.Manager and the remote `source` (model `Src` in Model/C15.lean)
 
 For every URL type, every web and every prior Manager state. -/
